@@ -128,6 +128,10 @@ func LoadProg(repo string, tests bool, tags string, overlay map[string][]byte) (
 // spelling and must not change a verdict. Only the X/Y pointers of the node are
 // exchanged; node identity (and with it types.Info) is untouched.
 func (p *Prog) normalise() {
+	if os.Getenv("PINTSA_NO_PURETEMPS") == "" {
+		normaliseMapLookups(p.ModPkgs())
+		normaliseConstContains(p.ModPkgs())
+	}
 	for _, pkg := range p.ModPkgs() {
 		info := pkg.TypesInfo
 		constLike := func(e ast.Expr) bool {
